@@ -36,7 +36,9 @@ FeeEnd(bb, u, mp) == IF Defined(u, maxGas) THEN Next(bb, u, maxGas, mp) ELSE FMa
 (* what a passed proposal may carry: any minimum gas price, and a base fee copied from some earlier query *)
 GovB == {0, 1, MaxB \div 2}
 Proposals == {[on |-> FALSE, minP |-> 0, b |-> 0]} \cup
-             {[on |-> TRUE, minP |-> m, b |-> nb] : m \in (IF GovFull THEN 0..MaxMinP ELSE {0, MaxMinP}), nb \in (IF GovFull THEN GovB ELSE {0, MaxB \div 2})}
+             (IF GovFull = "none" THEN {} ELSE
+              {[on |-> TRUE, minP |-> m, b |-> nb] : m \in (IF GovFull = "full" THEN 0..MaxMinP ELSE {0, MaxMinP}),
+                                                     nb \in (IF GovFull = "full" THEN GovB ELSE {0, MaxB \div 2})})
 
 McNext ==
   /\ h < MaxBlocks
